@@ -129,10 +129,11 @@ Definition read_text (text : string) : dict := read_lines (readlines (universal 
 Definition dump (d : dict) : list (string * (string * (string * (string * string)))) :=
   map (fun p => (fst p, (e_name (snd p), (e_sval (snd p), (e_comment (snd p), e_raw (snd p)))))) d.
 
-(* geophires_x_client.GeophiresInputParameters(params, from_file_path): f.writelines(base_file.readlines()) in text
-   mode (so the base arrives with its line endings translated), followed by one line "name, value\n" per override *)
+(* geophires_x_client.GeophiresInputParameters(params, from_file_path) BEFORE fix e85b257 (kept as the named pinned
+   behaviour): f.writelines(base_file.readlines()) in text mode (so the base arrives with its line endings translated),
+   followed by one line "name, value\n" per override - glued to the base's last line when that one is unterminated *)
 Definition param_line (p : string * string) : string := fst p ++ ", " ++ snd p ++ String LF EmptyString.
-Definition client_text (base : string) (params : list (string * string)) : string :=
+Definition client_text_pinned (base : string) (params : list (string * string)) : string :=
   universal base ++ cat (map param_line params).
 
 (* empty, or ends with a line feed *)
@@ -205,9 +206,10 @@ Definition reads_as_nocomment (text : string) (expected : list (string * (string
     && String.eqb (fst (snd (snd x))) (fst (snd (snd y)))
     && String.eqb (snd (snd (snd (snd x)))) (snd (snd (snd (snd y))))) (dump (read_text text)) expected.
 
-(* PROPOSED REPAIR of the client (not the current code; same idea as fix db0b708 in the Monte-Carlo driver): terminate
-   the base text before appending the overrides.  Proofs/TokenizerProofs.v proves the override clause of it without the
-   [terminated] hypothesis; the harness recognises this behaviour should the repository adopt it. *)
-Definition client_text_repaired (base : string) (params : list (string * string)) : string :=
+(* geophires_x_client.GeophiresInputParameters(params, from_file_path), current code (fix e85b257):
+     base_lines = base_file.readlines(); f.writelines(base_lines)
+     if base_lines and not base_lines[-1].endswith('\n'): f.write('\n')
+   then one line "name, value\n" per override *)
+Definition client_text (base : string) (params : list (string * string)) : string :=
   let u := universal base in
   (if complete u then u else u ++ String LF EmptyString) ++ cat (map param_line params).
